@@ -13,6 +13,23 @@ for f in sorted(glob.glob(os.path.join(V, 'evidence', 'C*.json'))):
     be = ', '.join('%s:%d' % (k, v) for k, v in sorted(c.get('backends', {}).items()))
     b = c.get('bounded') or {}
     print('| %s | %s | %s | %d | %d | %s | %s | %.0f |' % (e['property_id'], e['level'], fns, c['obligations'], c['discharged'], be, b.get('cases', '-'), e['wall_s']))
+# thorough-tier record (engine cross-check, must-fail mutants): copies of the thorough evidence kept in reports/thorough/
+tfiles = sorted(glob.glob(os.path.join(V, 'reports', 'thorough', 'C*.json')))
+if tfiles:
+    print()
+    print('| property (thorough) | obligations | discharged | bounded cases | cross-check: paths sampled / models / replayed / agree / disagree | '
+          'mutants: tried / killed / left subset / survived / not decisive | wall s |')
+    print('|---|---|---|---|---|---|---|')
+    for f in tfiles:
+        e = json.load(open(f))
+        c = e['coverage']
+        x = c.get('engine_crosscheck') or {}
+        m = c.get('must_fail_mutants') or {}
+        b = c.get('bounded') or {}
+        print('| %s | %d | %d | %s | %s / %s / %s / %s / %d | %s / %s / %s / %s / %s | %.0f |' % (
+            e['property_id'], c['obligations'], c['discharged'], b.get('cases', '-'),
+            x.get('sampled_paths', '-'), x.get('models_found', '-'), x.get('replayed', '-'), x.get('agree', '-'), len(x.get('disagreements') or []),
+            m.get('tried', '-'), m.get('killed', '-'), m.get('left_subset', '-'), m.get('survived', '-'), m.get('not_decisive', '-'), e['wall_s']))
 print()
 print('| seed | property | detected by |')
 print('|---|---|---|')
